@@ -198,6 +198,7 @@ def run(rep: Report, tier: str) -> None:  # noqa: C901
     c24._check_dispatch(P, sub, S, built)
     c24._check_defaults(P, sub, S, built, pretty=False)
     c24._check_names(P, G, sub, S, T, NC, built)
+    c24._check_presence_tests(P, sub, S, "R24.10", pretty=False)
     rep.instances += sub.instances
     rep.rules["R25.4"]["instances"] += sub.instances
     for k in sub.nontrivial:
